@@ -713,7 +713,9 @@ def _handle_harmony(e, position, part):
                     )
                 text, cadence_annotation = text[0], text[1]
                 part.add(score.Cadence(cadence_annotation), position)
-            part.add(score.RomanNumeral(text), position)
+            if text:
+                # "|PAC" is a cadence without a roman numeral
+                part.add(score.RomanNumeral(text), position)
     elif e.find("kind") is not None and e.find("root") is not None:
         # TODO: handle kind text which is other kind of annotation also root
         kind = e.find("kind").get("text")
